@@ -57,8 +57,8 @@ CLAUSES = {
     "either that call raises or the response is sent with a Set-Cookie header that parse_cookie reads back as exactly that name and value":
         "returned_call_sent (run level: any handler, any ending, any call that returned and is not overwritten by a later RETURNING call of "
         "the same name: the response is .ok and holds a Set-Cookie whose first part parse_cookie reads as {name: value} of that call) = "
-        "response_always_sent + flush_never_fails (every Morsel that enters the jar passed flush's own checks: fix e60fb19) + "
-        "raised_call_no_effect (fix 41a6784) + accepted_readback (= set_then_parse + unquote_quote composed with the accepted call) + "
+        "response_always_sent + flush_never_fails (every Morsel that enters the jar passed flush's own checks: fix 9d046c1) + "
+        "raised_call_no_effect (fix 6fb2834) + accepted_readback (= set_then_parse + unquote_quote composed with the accepted call) + "
         "ending_keeps_cookies (definitional on the model side - endState does not touch the jar; its weight is the tie: 37 endings enumerated)",
     "carrying exactly the requested attributes, with no extra attributes or cookies":
         "accepted_attrs_kwargs (any call, deprecated keywords included: the client reads name=_quote(value) followed by exactly requested(M) where M = "
